@@ -82,6 +82,16 @@ class C05(CacheProp):
                    ["get", h, 11], ["dump"]]
             cases.append(cachegen.Case("ct%d" % j, "cache", g.header(1000, 8, True, True, 0, 5), ops,
                                        tags=["profile:colltomb"]))
+        # the tombstone must be applied whatever the budget has become meanwhile: Set(k) and Del(k) buffered behind each
+        # other with another gated item between them, the budget lowered below the internal per-item cost before the
+        # tombstone is reached
+        isz = (ctx.probe_data or {"item_size": 56})["item_size"]
+        for j in range(max(2, n // 40)):
+            h, h2 = cachegen.mix(1500 + j), cachegen.mix(1600 + j)
+            low = rng.choice([1, isz - 1, isz // 2])
+            ops = [["set", h, 10, 11, 30, 0], ["set", h2, 20, 12, 30, 0], ["del", h, 10], ["tok"], ["updmax", low], ["tok"],
+                   ["tok"], ["tok"], ["wait"], ["get", h, 10], ["dump"], ["updmax", 1000], ["get", h, 10]]
+            cases.append(cachegen.Case("um%d" % j, "cache", g.header(1000, 8, False, True, 0, 5), ops, tags=["profile:updmaxdel"]))
         return cases
 
     def oracle(self, case, il):
